@@ -806,6 +806,12 @@ class Evaluator:
                 idx = z3.If(i < 0, i + n, i)
             return SymVal(base.ty[1], seq_at(base, idx))
         if base.ty == T.OPAQUE:
+            from . import prims as _p
+            h = getattr(_p, 'OPAQUE_SUBSCRIPT', None)    # optional model of x[key] (pyvc/ext)
+            if h is not None and not self.ctx.spec_mode:
+                r = h(self, state, base, node)
+                if r is not None:
+                    return r
             raise Unsupported("subscript of abstracted value")
         acc = self.subscript_accessor(state, base, node)
         if acc is None:
@@ -849,7 +855,11 @@ class Evaluator:
         ln = z3.If(hi > lo, hi - lo, 0)
         state.assume(seq_len(r) == ln,
                      z3.ForAll([i], z3.Implies(z3.And(0 <= i, i < ln),
-                                               seq_at(r, i) == seq_at(base, lo + i))))
+                                               seq_at(r, i) == seq_at(base, lo + i))),
+                     # same fact indexed by the position in base (usable trigger base[i])
+                     z3.ForAll([i], z3.Implies(z3.And(lo <= i, i < lo + ln),
+                                               seq_at(r, i - lo) == seq_at(base, i)),
+                               patterns=[seq_at(base, i)]))
         return r
 
     def e_Attribute(self, state, node):
